@@ -182,6 +182,10 @@ pub struct FwdCase {
     pub leaves: Vec<LeafSpec>,
     /// Some(true): the data was chosen so that the operation is exact: compare bitwise
     pub force_exact: Option<bool>,
+    /// Some(dims): the SECOND operand is not a fresh leaf but `first.reshape(dims)` - a view that shares the
+    /// first operand's storage (dims equal to the first operand's: the same values under the same shape)
+    #[serde(default)]
+    pub second_is_view_of_first: Option<Vec<usize>>,
 }
 
 impl FwdCase {
@@ -189,7 +193,7 @@ impl FwdCase {
         self.leaves.iter().map(|l| &l.dims[..]).collect()
     }
     pub fn sig(&self, kind: &str) -> String {
-        format!("{}:{}:{}", kind, op_param_class(&self.op), sig_class(&self.op, &self.dims()))
+        format!("{}:{}:{}{}", kind, op_param_class(&self.op), sig_class(&self.op, &self.dims()), if self.second_is_view_of_first.is_some() { ":shared-storage" } else { "" })
     }
 }
 
@@ -205,15 +209,28 @@ impl CaseKind for FwdCase {
         let mut m = RefState::new(0);
         let mut ex = Exec::new();
         let mut args = vec![];
-        for l in &self.leaves {
+        for (i, l) in self.leaves.iter().enumerate() {
+            if i == 1 {
+                if let Some(vd) = &self.second_is_view_of_first {
+                    let st = Step::Apply(ApplySpec { op: OpKind::Reshape(vd.clone()), args: vec![0] });
+                    if m.step(&st).is_err() || ex.step(&st).is_err() {
+                        return Outcome::discard("the view of the first operand could not be built");
+                    }
+                    args.push(1);
+                    continue;
+                }
+            }
             args.push(m.new_leaf(&l.dims, &l.vals, l.tracked));
             if let Err(e) = ex.step(&Step::Leaf { dims: l.dims.clone(), vals: l.vals.clone(), tracked: l.tracked }) {
                 return Outcome::internal(format!("leaf construction panicked: {}", e));
             }
         }
-        let key = key_of("fwd", &self.op, &self.leaves, 0);
+        let key = key_of("fwd", &self.op, &self.leaves, self.second_is_view_of_first.is_some() as u64);
         let dims = self.dims();
         let mut classes = vec![format!("op:{}", op_param_class(&self.op)), format!("shape:{}", shape_class(&self.op, &dims))];
+        if self.second_is_view_of_first.is_some() {
+            classes.push("operands:shared-storage".into());
+        }
         let expected = m.eval(&self.op, &args);
         let got = guarded(|| ex.eval(&self.op, &args));
         match expected {
